@@ -48,7 +48,7 @@ func writeManifest(verifDir string) error {
 		"notes": "Every check is `./run.sh <id> <tier>`: it (re)builds the checker if needed, loads /repo's current working tree, evaluates the property's rules, prints VIOLATION / KNOWN-FINDING lines and rewrites evidence/<id>.json. Nothing from nulab/autog is executed. Genuine defects found by the rules were repaired by `fix:` commits in /repo and are listed as `fixed:` in known_findings.txt.",
 	}
 	var checks []map[string]any
-	var na []map[string]any
+	na := []map[string]any{}
 	for _, id := range ids {
 		p := properties[id]
 		if p == nil {
